@@ -354,7 +354,8 @@ def rule_py_record_methods(rep, floor=20):
     import ast
     from .. import pyfront as pf
     r = rep.rule("TABLE.py-record-methods", "a function of src/awkward/operations that converts its argument with to_layout(..., allow_record=True) (the default) and then calls a method on the result outside any isinstance test of that variable "
-                 "only calls methods that ak.layout.Record binds too (src/python/content.cpp make_Record): Record is not a Content subclass - withparameter, localindex, fillna, num ... do not exist on it, so the documented ak.Record input raises AttributeError", floor=floor)
+                 "only calls methods that ak.layout.Record binds too (src/python/content.cpp make_Record): Record is not a Content subclass - withparameter, localindex, fillna, num ... do not exist on it, so the documented ak.Record input raises AttributeError; "
+                 "(b) highlevel.Record reads on self.layout only what make_Record binds; (c) an isinstance arm that names ak.layout.Record next to other layout classes only uses attributes Record binds", floor=floor)
     rec = {b.name for b in bindings() if b.cls == "make_Record"}
     if len(rec) < 15:
         raise AnalysisError("only %d bindings found for ak.layout.Record (anchor moved?)" % len(rec))
@@ -399,4 +400,39 @@ def rule_py_record_methods(rep, floor=20):
                     r.ok(key, "under a class test")
                     continue
                 r.check(n.attr in rec, key, m.where(n), "%s in %s calls `%s.%s` on the result of to_layout(..., allow_record=True) without a class test: ak.layout.Record has no %s" % (fd.name, rel, v, n.attr, n.attr), detail="bound on Record")
+    # (b) methods of highlevel.Record: self.layout is an ak.layout.Record
+    m = pf.module("highlevel.py")
+    for c in ast.walk(m.tree):
+        if isinstance(c, ast.ClassDef) and c.name == "Record":
+            seen = set()
+            for n in ast.walk(c):
+                if isinstance(n, ast.Attribute) and isinstance(n.value, ast.Attribute) and n.value.attr in ("layout", "_layout") and isinstance(n.value.value, ast.Name) and n.value.value.id == "self" and isinstance(n.ctx, ast.Load):
+                    if n.attr.startswith("__") or n.attr in seen:
+                        continue
+                    seen.add(n.attr)
+                    r.check(n.attr in rec, "highlevel.py:Record:self.layout.%s" % n.attr, m.where(n), "highlevel.Record uses `self.layout.%s`, but ak.layout.Record binds no %s (AttributeError)" % (n.attr, n.attr), detail="bound on Record")
+    # (c) arms that name ak.layout.Record among the accepted classes
+    for rel in [x for x in pf.all_modules() if "generated_parser" not in x and not x.startswith("_connect/_numba")]:
+        m = pf.module(rel)
+        seen = set()
+        for n in ast.walk(m.tree):
+            if not (isinstance(n, ast.Attribute) and isinstance(n.value, ast.Name) and isinstance(n.ctx, ast.Load)):
+                continue
+            v = n.value.id
+            for t_, inb in pf.enclosing_tests(n)[:1]:
+                if not inb:
+                    continue
+                for x in ast.walk(t_):
+                    ic = _isinst(x)
+                    if ic and ic[0] == v and "ak.layout.Record" in [e_.strip() for e_ in ast.unparse(x.args[1]).strip("()").split(",")] and len(ic[1]) > 1:
+                        own = None
+                        for p_ in pf.parent_chain(n):
+                            if isinstance(p_, (ast.FunctionDef, ast.Lambda)):
+                                own = p_
+                                break
+                        key = "%s:%s:%s.%s" % (rel, getattr(own, "name", "<module>"), v, n.attr)
+                        if key in seen or n.attr.startswith("__"):
+                            continue
+                        seen.add(key)
+                        r.check(n.attr in rec, key + "@record-arm", m.where(n), "%s: under `%s` the code calls `%s.%s`, which ak.layout.Record does not bind" % (rel, ast.unparse(t_)[:70], v, n.attr), detail="bound on Record")
     return r.done()
